@@ -498,58 +498,81 @@ func c12r1func(p *Prog, r *Reporter, pkg string, pk *packages.Package, fd *ast.F
 			r.Bad(fname, "notification guarded by subscribes", pos, "a Notify call has no preceding subscribes(...) test in the function")
 			continue
 		}
-		fields := map[string]string{}
+		// per event field: the source expressions it may have been given (literal value; or, for an event built in a
+		// variable, the field itself and the expression last assigned to it)
+		fields := map[string][]string{}
 		if cl, ok := unparen(nt.arg).(*ast.CompositeLit); ok {
 			for _, el := range cl.Elts {
 				if kv, ok := el.(*ast.KeyValueExpr); ok {
-					fields[p.src(kv.Key)] = norm(kv.Value)
+					fields[p.src(kv.Key)] = []string{norm(kv.Value)}
 				}
 			}
 		} else {
 			v := norm(nt.arg)
 			for _, f := range []string{"Added", "Removed", "OldRelation", "NewRelation", "EventTypes"} {
-				fields[f] = v + "." + f
+				fields[f] = []string{v + "." + f}
+				if rhs, ok := assigns[v+"."+f]; ok {
+					fields[f] = append(fields[f], rhs)
+				}
 			}
-			// a variable built earlier: EventTypes may have been assigned from a local
-			if rhs, ok := assigns[v+".EventTypes"]; ok {
-				fields["EventTypes"] = rhs
+		}
+		// simple aliases: x := &y / x := y
+		for f, vs := range fields {
+			for _, v := range vs {
+				if rhs, ok := assigns[v]; ok && !strings.ContainsAny(rhs, "(") {
+					fields[f] = append(fields[f], rhs)
+				}
 			}
+		}
+		has := func(vs []string, want string) bool {
+			for _, v := range vs {
+				if v == want {
+					return true
+				}
+			}
+			return false
 		}
 		var bad []string
 		tr, ok := triggers[sc.args[0]]
 		if !ok {
 			bad = append(bad, "the first argument "+sc.args[0]+" is not a trigger computed as <listener>.Subscriptions() & <types>")
 		} else {
-			if tr[1] != fields["EventTypes"] {
-				bad = append(bad, "trigger is masked with "+tr[1]+", the event's EventTypes is "+fields["EventTypes"])
+			if !has(fields["EventTypes"], tr[1]) {
+				bad = append(bad, "trigger is masked with "+tr[1]+", the event's EventTypes is "+strings.Join(fields["EventTypes"], " / "))
 			}
 			if tr[0] != nt.listener {
 				bad = append(bad, "trigger is computed from "+tr[0]+", the event is delivered to "+nt.listener)
 			}
 		}
 		addrOrNil := func(arg, field string) string {
-			v, has := fields[field]
-			if !has {
+			vs, ok := fields[field]
+			if !ok {
 				if arg != "nil" {
 					return field + ": the event has none, the predicate gets " + arg
 				}
 				return ""
 			}
-			if arg != "&"+v {
-				return field + ": the event carries " + v + ", the predicate gets " + arg
+			for _, v := range vs {
+				if arg == "&"+v {
+					return ""
+				}
+				// the predicate gets a pointer variable p, the event carries *p
+				if v == "*"+arg {
+					return ""
+				}
 			}
-			return ""
+			return field + ": the event carries " + strings.Join(vs, " / ") + ", the predicate gets " + arg
 		}
 		valOrNil := func(arg, field string) string {
-			v, has := fields[field]
-			if !has {
+			vs, ok := fields[field]
+			if !ok {
 				if arg != "nil" {
 					return field + ": the event has none, the predicate gets " + arg
 				}
 				return ""
 			}
-			if arg != v {
-				return field + ": the event carries " + v + ", the predicate gets " + arg
+			if !has(vs, arg) {
+				return field + ": the event carries " + strings.Join(vs, " / ") + ", the predicate gets " + arg
 			}
 			return ""
 		}
@@ -701,10 +724,35 @@ func c12r4(p *Prog, r *Reporter) {
 			r.Check(oks, "listener.(*"+tn+").Subscriptions", "returns the stored event mask", p.FnPos(fs), "returns the events field")
 		}
 	}
-	// NewCallback: hasComponents: len(components) > 0
-	if fd := p.FuncDecl("listener", "", "NewCallback"); fd != nil {
-		s := strings.ReplaceAll(p.src(fd.Body), " ", "")
-		r.Check(strings.Contains(s, "hasComponents:len(components)>0"), "listener.NewCallback", "restriction flag", p.Pos(fd.Pos()), "hasComponents: len(components) > 0")
+	// NewCallback: the value stored into hasComponents is a non-emptiness test of the components parameter
+	if fn := p.Fn("listener.NewCallback"); fn != nil {
+		n, okc, why := 0, true, ""
+		for _, b := range fn.Blocks {
+			for _, ins := range b.Instrs {
+				st, ok := ins.(*ssa.Store)
+				if !ok {
+					continue
+				}
+				fa, ok := st.Addr.(*ssa.FieldAddr)
+				if !ok || fieldName(fa.X.Type(), fa.Field) != "hasComponents" {
+					continue
+				}
+				n++
+				if !isNonEmptyTest(st.Val, "components") {
+					okc, why = false, "the stored value is "+apath(st.Val)
+				}
+			}
+		}
+		if n == 0 {
+			okc, why = false, "hasComponents is never set"
+		}
+		if okc {
+			r.OK("listener.NewCallback", "restriction flag", p.FnPos(fn), "hasComponents is set to a non-emptiness test of the components argument")
+		} else {
+			r.Bad("listener.NewCallback", "restriction flag", p.FnPos(fn), "hasComponents must be `len(components) > 0`: "+why)
+		}
+	} else {
+		r.Anchor("listener.NewCallback")
 	}
 }
 
@@ -880,3 +928,67 @@ func staleGuard(ph *ssa.Phi, seen map[*ssa.Phi]bool) string {
 }
 
 var _ = constant.MakeBool
+
+// isNonEmptyTest: v is len(param) > 0 in any of its spellings (> 0, != 0, >= 1, 0 <, 1 <=, !(== 0)).
+func isNonEmptyTest(v ssa.Value, param string) bool {
+	if u, ok := v.(*ssa.UnOp); ok && u.Op == token.NOT {
+		if bo, ok := u.X.(*ssa.BinOp); ok {
+			l, c, ok2 := lenAndConst(bo, param)
+			if ok2 && (bo.Op == token.EQL && c == 0 || l && bo.Op == token.LEQ && c == 0 || l && bo.Op == token.LSS && c == 1 || !l && bo.Op == token.GEQ && c == 0 || !l && bo.Op == token.GTR && c == 1) {
+				return true
+			}
+		}
+		return false
+	}
+	bo, ok := v.(*ssa.BinOp)
+	if !ok {
+		return false
+	}
+	l, c, ok2 := lenAndConst(bo, param)
+	if !ok2 {
+		return false
+	}
+	if bo.Op == token.NEQ && c == 0 {
+		return true
+	}
+	if l { // len OP c
+		return bo.Op == token.GTR && c == 0 || bo.Op == token.GEQ && c == 1
+	}
+	// c OP len
+	return bo.Op == token.LSS && c == 0 || bo.Op == token.LEQ && c == 1
+}
+
+// lenAndConst: bo compares len(param) with an integer constant; lenLeft tells on which side the len is.
+func lenAndConst(bo *ssa.BinOp, param string) (lenLeft bool, c int64, ok bool) {
+	isLen := func(v ssa.Value) bool {
+		call := callOf(v)
+		if call == nil {
+			return false
+		}
+		bi, ok := call.Call.Value.(*ssa.Builtin)
+		if !ok || bi.Name() != "len" {
+			return false
+		}
+		pr, ok := call.Call.Args[0].(*ssa.Parameter)
+		return ok && pr.Name() == param
+	}
+	cst := func(v ssa.Value) (int64, bool) {
+		k, ok := v.(*ssa.Const)
+		if !ok || k.Value == nil || k.Value.Kind() != constant.Int {
+			return 0, false
+		}
+		n, ok := constant.Int64Val(k.Value)
+		return n, ok
+	}
+	if isLen(bo.X) {
+		if n, ok := cst(bo.Y); ok {
+			return true, n, true
+		}
+	}
+	if isLen(bo.Y) {
+		if n, ok := cst(bo.X); ok {
+			return false, n, true
+		}
+	}
+	return false, 0, false
+}
